@@ -228,6 +228,13 @@ impl<T: ModelType + BinarySerializer + BinaryDeserializer + 'static> TypeOps for
                 desert_core::serialize_iterator(&mut xs.iter().filter(|_| true), &mut ctx)?;
                 Ok(ctx.into_output())
             }))),
+            // an iterator whose size hint has an upper bound that is not tight: the filter drops the first element
+            ("iter_dropping", lift(guarded(|| {
+                let mut ctx = SerializationContext::new(Vec::new());
+                let mut k = 0usize;
+                desert_core::serialize_iterator(&mut xs.iter().filter(|_| { k += 1; k > 1 }), &mut ctx)?;
+                Ok(ctx.into_output())
+            }))),
             ("iter_exact", lift(guarded(|| {
                 let mut ctx = SerializationContext::new(Vec::new());
                 desert_core::serialize_iterator(&mut xs.iter(), &mut ctx)?;
